@@ -53,6 +53,8 @@ def check(ctx):
             if e['tag'] != 'to_cart' or e['where'] is None or not in_scope(e['where']) or id(e['node']) in seen:
                 continue
             seen.add(id(e['node']))
+            if e.get('lattice') is not None and e['lattice'].frame not in (None, 'LAT'):
+                continue  # coordinates in the box frame of the periodic tree: covered by the tree-frame rule below
             q = e['where'].qualname
             if q in CART_PRODUCERS:
                 ctx.ob('R1', e['where'], e['node'], True, CART_PRODUCERS[q])
